@@ -537,3 +537,55 @@ Lemma seg_result_more flags xid acc s1 : has_end flags = false ->
   seg_result flags xid acc s1 =
   (seg_acked flags xid acc s1) <| trace := trace s1 ++ [ev_rinter xid (N.of_nat (length acc))] |>.
 Proof. intros H. unfold seg_result. rewrite H. reflexivity. Qed.
+
+(** * Trace extensions *)
+
+(** [s'] has the trace of [s] followed by events that all satisfy [Pe]. *)
+Definition ext_by (Pe : event -> Prop) (s s' : ep) : Prop :=
+  exists evs, trace s' = trace s ++ evs /\ Forall Pe evs.
+
+Lemma ext_refl Pe s : ext_by Pe s s.
+Proof. exists []. split; [symmetry; apply app_nil_r|constructor]. Qed.
+
+Lemma ext_trans Pe s1 s2 s3 : ext_by Pe s1 s2 -> ext_by Pe s2 s3 -> ext_by Pe s1 s3.
+Proof.
+  intros [a [Ha Fa]] [b [Hb Fb]]. exists (a ++ b). split.
+  - rewrite Hb, Ha, app_assoc. reflexivity.
+  - apply Forall_app. split; assumption.
+Qed.
+
+Lemma ext_same Pe s s' : trace s' = trace s -> ext_by Pe s s'.
+Proof. intros H. exists []. split; [rewrite app_nil_r; exact H|constructor]. Qed.
+
+Lemma ext_mono (P Q : event -> Prop) s s' : (forall e, P e -> Q e) -> ext_by P s s' -> ext_by Q s s'.
+Proof. intros H [l [E F]]. exists l. split; [exact E|]. eapply Forall_impl; eassumption. Qed.
+
+(** Goal [exists evs, T = trace s ++ evs /\ Forall Pe evs] where [T] is [trace s]
+    followed by appended pieces: normalise and leave the [Forall] obligations
+    on the pieces to [tac]. *)
+Ltac ext_pieces tac :=
+  repeat first [ apply Forall_nil | apply Forall_app; split | apply Forall_cons | tac ].
+Ltac ext_close tac :=
+  first [ exists []; split; [rewrite ?app_nil_r; reflexivity|constructor]
+        | eexists; split; [rewrite <- ?app_assoc; reflexivity | ext_pieces tac] ].
+
+(** * Parsing facts *)
+Lemma parse_frame_msg b l m r : parse_frame b l = Some (FMsg m, r) -> b = true.
+Proof.
+  unfold parse_frame. destruct b; [reflexivity|].
+  destruct (parse_contact l) as [[c r']|]; discriminate.
+Qed.
+
+Lemma parse_frame_contact b l c r : parse_frame b l = Some (FContact c, r) -> b = false.
+Proof.
+  unfold parse_frame. destruct b; [|reflexivity].
+  destruct (parse_msg l) as [[c' r']|]; discriminate.
+Qed.
+
+(** * Dictionary facts *)
+Lemma dict_set_keys {V} k (v : V) d x : dict_get k d = Some x -> map fst (dict_set k v d) = map fst d.
+Proof.
+  induction d as [|[k' v'] d IH]; cbn [dict_get dict_set map fst]; [discriminate|].
+  destruct (N.eqb_spec k' k) as [->|Hne]; intros H; cbn [map fst]; [reflexivity|].
+  rewrite IH by exact H. reflexivity.
+Qed.
